@@ -6,25 +6,32 @@ import plans
 
 TEXT = {
  "C01": "Bounded-exhaustive and randomised model checking of the hub's unbond / release / withdraw machinery in the TLA+ specification (solvency invariant, release coverage and dust bound, exact payout, order independence as outcome invariants), bound to the code by replaying TLC behaviours on the six real contracts and by validating recorded executions (incl. dry-run withdrawals in every visited state) with TLC on the implementation's own states.",
- "C02": "Action properties on every transaction of the specification and of recorded executions: books <= delegations after pricing operations, delegate messages sum to the payment and go to registered validators only, undelegation equals the book decrease and requests x recorded rates, liquid balance untouched; 1-3 validators with registry changes mid-history.",
+ "C02": "Action properties on every transaction of the specification and of recorded executions: books <= delegations after pricing operations, delegate messages sum to the payment and go to registered validators only, undelegation equals the book decrease and requests x recorded rates, liquid balance untouched; 1-3 validators with registry changes mid-history, and 12 validators in recorded executions.",
  "C03": "The reported state (real State query, logged per step) must equal backing / (supply + pending requests); mint, convert and undelegation amounts are re-derived from the reported pre-state rates independently of the handlers and compared on every step of model and implementation traces.",
  "C04": "Action property over reported rates on every non-slashing step (all user, token, registry, reward-dispatch and environment steps), evaluated on model behaviours and on the implementation's own states; the dust-pool finding K2 is a named, witnessed signature.",
  "C05": "Fee bounds and the no-overshoot bound on the four fee paths for fee in {0, 0.005, 0.5, 1} and threshold in {0, 0.95, 1}, amounts up to the whole pool; the defect found (convert over-collection) is fixed in /repo and its witness is a permanent regression replay.",
- "C06": "Recognition exactness and pro-rata split as a state invariant relating the stored books, the delegations and the real State query; proportional loss across batches released together as an action property (cross-multiplied, exact integers).",
+ "C06": "Recognition exactness and pro-rata split as a state invariant relating the stored books, the delegations and the real State query; proportional loss across batches released together and between the two token types, and the total promised to a released group against what arrived for it, as action properties (cross-multiplied, exact integers).",
  "C07": "Conservation of claims per batch as a state invariant with a ghost for paid tokens; exact crediting of the cw20 sender on every accepted unbond (Send and SendFrom); claims shrink only by the owner's withdrawal of a released batch; UnbondRequests / AllHistory are the projection itself.",
- "C08": "Time-lock and lifecycle as action properties with time steps landing on and next to the epoch / unbonding boundaries for several period pairs: release only after time + unbonding <= now, at most one undelegation per epoch, consecutive ids, released entries immutable.",
+ "C08": "Time-lock and lifecycle as action properties with time steps landing on and next to the epoch / unbonding boundaries for several period pairs: release only after time + unbonding <= now, at most one undelegation per epoch, consecutive ids, released entries immutable, a claim consumed only by its owner's withdrawal of a matured released batch; histories of up to 14 batches at Unix-scale block time.",
  "C09": "Outcome properties checked on every unbond / withdraw attempt, committed or dry-run (probes in every visited state of recorded executions); independence from swap / oracle as equality of the specification's outcome under all stub modes with what the implementation did; K2 is a named, witnessed signature.",
  "C10": "Exhaustive enumeration (model: BFS over principal configurations; implementation: dry-run of every message variant x 13 sender classes in evolving states) against a table of designated principals written from the property statement; nested calls are checked through the logged message tree.",
  "C11": "Every hub message x sender in paused states (incl. seeded legacy wait-list entries in the on-disk format), pause cycles inside operation histories; UpdateParams changes only the parameters; all hub queries are executed in every visited state.",
- "C12": "Function level: TLC enumerates all validator lists up to length 4-5 and amounts and checks the post-conditions on the transcription; the REAL functions are executed on every enumerated case and on seeded random cases up to 1.5e8 per entry (with a non-termination watchdog) and TLC validates their results.",
+ "C12": "Function level: TLC enumerates all validator lists up to length 4-5 and amounts and checks the post-conditions on the transcription; the REAL functions are executed on every enumerated case and on seeded random cases up to 1.5e8 per entry (with a non-termination watchdog) and TLC validates their results; at the magnitudes of the envelope (stakes and amounts to 1e18, lists to 9 validators) the real functions' results are judged against the same post-conditions by Apalache over unbounded integers.",
  "C13": "Action property on every successful RemoveValidator in histories with 1-3 validators, pending rewards, in-flight batches, redelegation blocked / allowed, remove / re-add; runs the real registry + hub + dispatcher + reward cascade.",
  "C14": "Solvency / stranded-dust invariants with exact 18-digit decimals, claim outcome property on every claim attempt (committed or dry run), ghost totals claimed <= delivered; reward deliveries both through the real four-contract cascade and directly.",
- "C15": "A per-holder ideal-accrual ghost (exact pro-rata per index update, independent of other holders by construction) bounds earned rewards from both sides; without an index update a holder's accrual changes only by its own claim.",
+ "C15": "A per-holder ideal-accrual ghost (exact pro-rata per index update, computed from bank movements, bSei token balances and the bSei supply - not from the reward contract's records - and independent of other holders by construction) bounds earned rewards from both sides; without an index update a holder's accrual changes only by its own claim.",
  "C16": "State invariant over every reachable state of all nine bSei operations by holders, spenders and the hub; the projection reads the real reward contract's holders and the real token balances.",
  "C17": "Grid over balances, bonded pairs, prices 1e-3..1e3 and keeper rates in [0,1] with the dispatcher called by the hub principal and through the whole UpdateGlobalIndex cascade: share bound, exact keeper amounts, nothing kept, success for every balance; zero-amount transfers are the named, witnessed finding K1.",
  "C18": "Conservation invariant for both ledgers incl. accounts outside the modelled universe (enumerated with AllAccounts), authorisation of mint / burn, allowance bounds with time and height expirations, rate refresh after burns from the logged message tree, instantiate with repeated addresses (defect fixed in /repo, regression witness).",
- "C19": "Action property on every successful UpdateGlobalIndex (also triggered by RemoveValidator) over the real four-contract cascade, plus an outcome property that it executes whenever stake is bonded (dry-run in every visited state); K1 is a named, witnessed signature.",
+ "C19": "Action property on every successful UpdateGlobalIndex (also triggered by RemoveValidator) over the real four-contract cascade, plus an outcome property that it executes whenever stake is bonded (dry-run in every visited state); the credit to bSei holders is measured against the coins that reached the reward contract in the transaction; K1 is a named, witnessed signature.",
  "C20": "Range invariants and field-by-field action properties over every UpdateParams / UpdateConfig / UpdateSwap* / UpdateOracle* / instantiate message with absent, in-range, boundary and out-of-range values, enumerated in the model and executed on the real contracts.",
+}
+TECH = {
+ "C12": "explicit TLA+ specification of the two distribution functions checked by TLC (exhaustive grid), the real functions' results validated by TLC against it case by case; Apalache evaluates the post-conditions on the real functions' results at 1e18",
+ "C18": "explicit TLA+ specification checked by TLC (bounded exhaustive + simulation), bound to the code by spec->impl replay and impl->spec trace validation; thorough tier adds an Apalache inductive invariant for the ledger operations over unbounded integers",
+ "C03": "explicit TLA+ specification checked by TLC (bounded exhaustive + simulation), bound to the code by spec->impl replay and impl->spec trace validation; the decimal kernel of the specification is cross-checked against the real arithmetic at 1e18",
+ "C14": "explicit TLA+ specification checked by TLC (bounded exhaustive + simulation), bound to the code by spec->impl replay and impl->spec trace validation; the decimal kernel of the specification is cross-checked against the real arithmetic at 1e18",
+ "C17": "explicit TLA+ specification checked by TLC (bounded exhaustive + simulation), bound to the code by spec->impl replay and impl->spec trace validation; the decimal kernel of the specification is cross-checked against the real arithmetic at 1e18",
 }
 NOTE = "Assumes the operating envelope of DESIGN.md section 4 and the MiniChain environment model; trusted base: TLC + the 40-line BigInteger override of Dec18 (cross-checked against cosmwasm_std by step-by-step conformance), the projection code of the harness. Exhaustive results hold only for the stated small constants; larger amounts (to 2^31) are sampled by simulation and recorded traces."
 
@@ -41,7 +48,7 @@ def main():
             engine="tlc",
             level_claimed=dict(category="model_checking", text=TEXT[pid], design_ref="DESIGN.md section 5, " + pid),
             level_note=NOTE,
-            technique="explicit TLA+ specification checked by TLC (bounded exhaustive + simulation), bound to the code by spec->impl replay and impl->spec trace validation"))
+            technique=TECH.get(pid, "explicit TLA+ specification checked by TLC (bounded exhaustive + simulation), bound to the code by spec->impl replay and impl->spec trace validation")))
     m = dict(version=1, setup_cmd="./check setup",
              hooks=dict(guard="krp_verif", enable="harness/.cargo/config.toml sets rustflags --cfg krp_verif for the harness build (path dependencies on /repo); the only hooks are cfg-guarded `pub use` re-exports of private arithmetic helpers (hub math::decimal_division, reward math::*) used by the kernel check; observation of the contracts needs no hook (instantiate / execute / query and the crates' public storage readers)",
                         baseline_off_cmd="cd /repo && cargo test --workspace --no-fail-fast --offline", source_commits=["8d760b0", "728cb0b"], add_only=True),
